@@ -675,6 +675,14 @@ func (g *GoBackNConn) receivePacketsForever() error { // nolint:gocyclo
 
 			return errTransportClosing
 
+		case *PacketSYNACK:
+			// A SYNACK in the data phase can only be a duplicate
+			// or delayed copy of the one that completed the
+			// handshake. It carries no information, so we ignore it
+			// instead of tearing down the connection.
+			g.log.Tracef("Ignoring SYNACK received after the " +
+				"handshake")
+
 		default:
 			return fmt.Errorf("received unexpected message: %T",
 				msg)
